@@ -142,6 +142,106 @@ class Gen12(gen_c10.Gen):
         self.emit(1, "return b")
         self.emit(0, "")
 
+    def lambda_fstring_section(self):
+        r = self.rng
+        self.features.add("lambda_fstring")
+        fn = self.fresh("lf")
+        self.emit(0, f"def {fn}(a, b: {self.union_annot()}, *rest):")
+        lambdas = ["lambda: a", "lambda x: x + b", "lambda x, y=b: (x, y)", "lambda *p, **k: (p, k, rest)", "lambda x, /, y, *, z=1: x.nope",
+                   "(lambda q: q(q))(lambda q: q)", "lambda: (yield)", "lambda x: lambda y: x[y]", "lambda: undefined_in_lambda"]
+        fstrs = ["f'{a}'", "f'{a!r:>10} {b=}'", "f'{a:{b}}'", "f'{a.nope} {b[0]}'", "f'{rest[0]:.{a}f}'", "f'{{literal}} {a}' f'{b}'",
+                 "f'{(lambda: a)()}'", "f'{undefined_in_fstring}'", "f'{a if b else rest!s}'", "f'{len(a):03d}'", "f'{a + b}' + 1"]
+        for _ in range(r.randrange(2, 5)):
+            lam = r.choice(lambdas)
+            form = r.randrange(4)
+            if form == 0:
+                self.emit(1, f"reveal_type({lam})")
+            elif form == 1:
+                self.emit(1, f"reveal_type(({lam})({', '.join(r.sample(LITS[:10], r.randrange(0, 3)))}))")
+            elif form == 2:
+                self.emit(1, f"sorted(rest, key={lam})")
+            else:
+                self.emit(1, f"{r.choice(NAMES[:8])} = {lam}")
+        for _ in range(r.randrange(2, 5)):
+            fs = r.choice(fstrs)
+            self.emit(1, r.choice([f"reveal_type({fs})", f"print({fs})", f"{r.choice(NAMES[:8])} = {fs}", f"if {fs}: pass"]))
+        self.emit(1, "return a")
+        self.emit(0, "")
+
+    def format_spec_section(self):
+        """f-string fields whose operand is ONE known literal, with every format code and extreme
+        operands: pyanalyze formats such fields itself (format() raises TypeError, ValueError and
+        OverflowError)"""
+        r = self.rng
+        self.features.add("format_spec")
+        fn = self.fresh("fs")
+        self.emit(0, f"def {fn}(a):")
+        operands = ["1114112", "-1", "10 ** 400", "0", "255", "1.5", "1e308 * 10", "float('nan')", "'s'", "b'x'", "None", "True",
+                    "(1, 2)", "[1]", "2 ** 64", "-0.0", "1j", "'\\u00e4'", "10 ** 30", "3.14159"]
+        specs = ["c", "d", "e", "f", "g", "x", "X", "o", "b", "n", "%", "s", ">10", "^{a}", "010.3f", ",d", "_x", ".2%", "+", " ", "#x",
+                 "1000000d", ".1000f", "z", "c" * 2, "<<", "0>5c", ".3s", "=+5"]
+        for _ in range(r.randrange(4, 10)):
+            o, sp = r.choice(operands), r.choice(specs)
+            conv = r.choice(["", "", "!r", "!s", "!a"])
+            line = "f'{" + o + conv + ":" + sp + "}'"
+            self.emit(1, r.choice([f"reveal_type({line})", f"print({line})", f"{r.choice(NAMES[:6])} = {line}"]))
+        self.emit(1, "return a")
+        self.emit(0, "")
+
+    def unpack_kwargs_section(self):
+        """**kwargs: Unpack[TD] where TD's keys may repeat the names of explicit parameters"""
+        r = self.rng
+        self.features.add("unpack_kwargs")
+        td = self.fresh("KW")
+        params = r.sample(NAMES[:8], r.randrange(1, 4))
+        keys = r.sample(params, r.randrange(0, len(params) + 1)) + r.sample(NAMES[8:16], r.randrange(1, 3))
+        self.emit(0, f"class {td}(TypedDict{r.choice(['', ', total=False'])}):")
+        for k in dict.fromkeys(keys):
+            self.emit(1, f"{k}: {r.choice(['int', 'str', 'NotRequired[int]', 'Required[str]'])}")
+        fn = self.fresh("uk")
+        sig = ", ".join(f"{p}: int" for p in params)
+        star = r.choice(["", "*, ", "*args: int, "])
+        self.emit(0, f"def {fn}({sig}, {star}**kwargs: Unpack[{td}]) -> None:")
+        self.emit(1, "reveal_type(kwargs)")
+        self.emit(0, f"def {self.fresh('use')}(d: {td}):")
+        self.emit(1, f"{fn}({', '.join('1' for _ in params)})")
+        self.emit(1, f"{fn}({', '.join('1' for _ in params)}, {', '.join(k + '=1' for k in r.sample(keys, min(len(keys), 2)))})")
+        self.emit(1, f"{fn}(**d)")
+        self.emit(1, f"{fn}({', '.join(p + '=1' for p in params)}, **d)")
+        self.emit(1, f"reveal_type({fn})")
+        self.emit(0, "")
+
+    def typevar_truthiness_section(self):
+        """constrained / bounded TypeVars (incl. AnyStr) in Optional / Union positions under truthiness tests"""
+        r = self.rng
+        self.features.add("typevar_truthiness")
+        tv = self.fresh("TV")
+        kind = r.randrange(4)
+        if kind == 0:
+            self.emit(0, f"{tv} = TypeVar('{tv}', int, str)")
+        elif kind == 1:
+            self.emit(0, f"{tv} = TypeVar('{tv}', bound={r.choice(['int', 'Sequence[int]', 'Union[int, None]'])})")
+        elif kind == 2:
+            self.emit(0, f"{tv} = typing.AnyStr")
+        else:
+            self.emit(0, f"{tv} = TypeVar('{tv}', bytes, str, None)")
+        fn = self.fresh("tt")
+        shapes = [f"Optional[{tv}]", f"Union[{tv}, None]", f"Union[{tv}, int]", f"Union[list[{tv}], {tv}, None]", tv, f"Optional[Union[{tv}, float]]"]
+        self.emit(0, f"def {fn}(x: {r.choice(shapes)}, y: {r.choice(shapes)} = None):  # type: ignore")
+        tests = ["if x:", "if not x:", "if x and y:", "if x or y:", "while x:", "assert x", "if not (x and not y):", "if x is not None and x:"]
+        for t in r.sample(tests, r.randrange(2, 5)):
+            if t.startswith(("if", "while")):
+                self.emit(1, t)
+                self.emit(2, "reveal_type(x)")
+                if t.startswith("while"):
+                    self.emit(2, "break")
+            else:
+                self.emit(1, t)
+        self.emit(1, "z = x or y")
+        self.emit(1, "reveal_type(z)")
+        self.emit(1, "return x if x else y")
+        self.emit(0, "")
+
     def paramspec_section(self):
         r = self.rng
         self.features.add("paramspec")
@@ -341,6 +441,9 @@ class Gen12(gen_c10.Gen):
             self.decorator_section, self.expr_section, self.expr_section, self.match_section, self.async_section, self.class_odd_section,
             self.literal_union_section, self.literal_union_section, self.typeguard_section, self.typeguard_section,
             self.sysinfo_section, self.global_section, self.bounds_section, self.bounds_section,
+            self.lambda_fstring_section, self.lambda_fstring_section, self.match_section,
+            self.format_spec_section, self.format_spec_section, self.unpack_kwargs_section, self.typevar_truthiness_section,
+            self.typevar_truthiness_section,
         ]
         for _ in range(r.randrange(3, 7)):
             r.choice(pieces)()
